@@ -123,6 +123,13 @@ var specs = map[string]spec{
 		Assumptions: []string{"this check is single-threaded: ownership errors that need a close racing an in-flight handler or the websocket send-queue drainer are only reachable in the e2e world (C10/C14), which installs the same tracker when claimed",
 			"leaks (buffers never returned) are counted as a probe only; the property does not demand their absence"},
 	},
+	"C20": {
+		World: "stream", Level: "exploration", QuickS: 25, ThoroughS: 600,
+		Rule: "cases = allocator in {MemPool with bufSize in {default,1,64,1024} and freeSize in {default,64,1024,4096,65536}, AlignedAllocator, stdAllocator} x 1-3 simulated goroutines x 3-30 operations from {Malloc, Append, AppendString, Realloc, Free} with sizes from {0..3, 2^k-1/2^k/2^k+1 for k=5..15, freeSize-1..freeSize+2, random < 5000}; the simulated sync.Pool returns any earlier Put or a new object by PRNG under five policies (LIFO, FIFO, random, mostly-new, random with drops); after EVERY operation all live buffers of all goroutines are compared with their model contents and their [base, base+cap) ranges must be pairwise disjoint; non-trivial = some Malloc returned memory that had been handed out before (pool reuse); distinct = context-switch hash x operation list",
+		Real: []string{"mempool.MemPool, mempool.AlignedAllocator, mempool.stdAllocator (transformed real code)"},
+		Stub: append([]string{"sync.Pool: simulated, PRNG-chosen reuse policy"}, stubCommon...),
+		Assumptions: append([]string{"candidly: most of the power is model-based operation-sequence search; the simulator contributes the pool's reuse freedom and the interleaving of goroutines", "only buffers obtained from the allocator are freed into it"}, assumeCommon...),
+	},
 	"C12": {
 		World: "stream", Level: "exploration", QuickS: 25, ThoroughS: 600,
 		Rule: "cases = two real websocket.Conn endpoints (client role masks, server role does not) joined by the simulated transport; 1-5 text/binary messages with lengths from {0,1,2,124..128,4095..4097,65534..65537,70000,200000} and around multiples of the frame-size limit, random / highly compressible / multi-byte UTF-8 content, interleaved pings and pongs, compression off or on at levels {default,1,5,9,huffman-only}, MaxWebsocketFramePayloadSize in {0,1,2,125,126,1000,4096,65535,65536}; the wire is decoded by an independent frame codec (mask bit by role, minimal lengths, fragments within the limit, RSV1 only on the first frame of a compressed message) and delivered in every single cut (small cases), seeded multi-cuts, or fixed read sizes; 10% of the cases fail the sender's transport; non-trivial = fragmentation or compression or a length-class boundary exercised; distinct = distinct wire bytes",
